@@ -8,7 +8,22 @@ def run(ck):
     for r in (0, 1, 2):
         ck.mc("MC_Grid", "MC_Grid_r%d.cfg" % r, what="reference graph of resolution %d" % r, workers=vlib.NCPU, xmx="8g",
               expect_distinct=NCELLS[r])
+    ck.mc("MC_Path", "MC_Path.cfg", workers=4,
+          what="the line drawing of gridPathCells in exact rational arithmetic (interpolation in cube coordinates, cubeRound with C's "
+               "round): for every start within 1 and every end within 9 of it the distance + 1 samples start and end right, lie on "
+               "the lattice, stay within one unit of the exact point and consecutive samples are lattice neighbours (ties included)")
+    neg = vlib.tlc("MC_Path", "MC_Path_neg.cfg", workers=4)
+    if neg["verdict"] != "invariant":
+        raise vlib.InfraError("negative control (cubeRound, smallest error) was not rejected: %s" % neg["verdict"])
+    ck.ev.notes.append("negative control: cubeRound recomputing the coordinate with the smallest error violates Contiguous, as expected")
     drv = vlib.build_driver("drv_dist", "dbg")
+    tp = os.path.join(ck.tdir, "pathij.ndjson")
+    d = vlib.run_driver(drv, ["pathij", ck.tier, ck.seed, tp])
+    if d["rc"] != 0:
+        raise vlib.InfraError("driver failed rc=%s %s" % (d["rc"], d["err"][-1500:]))
+    ck.trace("line-model", "Trace_Path", "Trace_Path.cfg", tp, nchunks=16, drift=True,
+             what="model -> code: gridPathCells from 7 (19) starts to every cell within 9 on pentagon-free patches of 2 (6) resolutions; "
+                  "in the start cell's local IJ coordinates the result is the model's line sample by sample (exact ties excepted)")
     t = os.path.join(ck.tdir, "c14.ndjson")
     d = vlib.run_driver(drv, ["c14", ck.tier, ck.seed, t])
     if d["rc"] != 0:
